@@ -5,6 +5,12 @@ import BigtreeProofs.Lemmas.Iter
 # BinBridge — the read-back of the two-slot store: fuel independence, identities, in-order blocks
 -/
 
+/-- no depth limit: the gate keeps the whole binary tree -/
+theorem Iter.bgate_zero (d : Nat) (t : BTree) : Iter.bgate 0 d t = t := by
+  induction t generalizing d with
+  | nil => rfl
+  | node i n a l r ihl ihr => simp [Iter.bgate, ihl, ihr]
+
 namespace BinStore
 open Relation List
 
